@@ -278,6 +278,7 @@ static int drv_main(int argc, char **argv)
 	size_t lcap = 0;
 	ssize_t got;
 	int status_pipe[2];
+	int hangs = 0;
 	(void) argc; (void) argv;
 
 	drv_out = stdout;
@@ -355,6 +356,10 @@ static int drv_main(int argc, char **argv)
 			printf("{\"b\":%ld,\"i\":%ld,\"a\":\"%s\",\"sig\":%d}\n", prog[1], prog[2],
 			       sig == SIGALRM ? "Hang" : "Crash", sig);
 			fflush(stdout);
+			/* a change that breaks progress hangs every behaviour: stop after a few (20 s each) */
+			if (sig == SIGALRM && ++hangs >= 6) {
+				break;
+			}
 		}
 		/* resume after the failed behaviour */
 		pos = (size_t) prog[0] + 1;
